@@ -30,7 +30,7 @@ impl<const CAP: usize> RecordMaybeUninit<CAP> {
     /// This function should not be called by anything but truc-generated code which is also
     /// responsible for dropping the data by reading the object (see [`Self::read`]).
     pub unsafe fn write<T>(&mut self, offset: usize, t: T) {
-        std::ptr::write((self.data.as_ptr().add(offset) as *mut u8).cast(), t);
+        std::ptr::write_unaligned((self.data.as_mut_ptr().add(offset) as *mut u8).cast(), t);
     }
 
     /// Gets a reference to object of type `T` from the record at offset `offset`.
@@ -48,7 +48,7 @@ impl<const CAP: usize> RecordMaybeUninit<CAP> {
     ///
     /// This function should not be called by anything but truc-generated code.
     pub unsafe fn get_mut<T>(&mut self, offset: usize) -> &mut T {
-        &mut *(self.data.as_ptr().add(offset) as *mut u8).cast()
+        &mut *(self.data.as_mut_ptr().add(offset) as *mut u8).cast()
     }
 }
 
